@@ -40,6 +40,9 @@ func GenC10(r *core.Rand, tier string) core.Schedule {
 		cfg.TOAppliedPermille = uint64(r.Range(0, 80))
 		cfg.TOLostPermille = uint64(r.Range(0, 40))
 	}
+	if r.Chance(0.3) {
+		cfg.ReadBusyPermille = uint64(r.Range(50, 400)) // overloaded nodes refuse read-index requests
+	}
 	clients := r.Range(2, 5)
 	var steps []Step
 	if cfg.Leaders == 3 {
